@@ -591,10 +591,20 @@ def check_saturated_sets(ctx):
     differ in: where the receiving region rd ranges - over r's descendants (transitively), not only over its children."""
     fi = ctx.repo.func(RG, 'RegionGraph.build_graph')
     n = 0
+    Bn = {U(a.value) for a in ast.walk(fi.node) if isinstance(a, ast.Assign) and len(a.targets) == 1 and U(a.targets[0]) == 'self.B' and isinstance(a.value, ast.Name)}
+    for a in ast.walk(fi.node):
+        if isinstance(a, ast.Assign) and len(a.targets) == 1 and isinstance(a.targets[0], ast.Tuple) and isinstance(a.value, ast.Tuple) \
+                and len(a.targets[0].elts) == len(a.value.elts):
+            for t_, v_ in zip(a.targets[0].elts, a.value.elts):
+                if U(t_) == 'self.B' and isinstance(v_, ast.Name):
+                    Bn.add(v_.id)
+    if len(Bn) != 1:
+        raise AnalysisError('build_graph: the container stored as self.B was not found')
+    Bn = Bn.pop()
     for node in ast.walk(fi.node):
         # comprehension form:  B[r] = [(ru, rd) for rd in <S> for ru in ..]      loop form:  for rd in <S>: .. B[r].append((ru, rd))
         cands = []
-        if isinstance(node, ast.Assign) and len(node.targets) == 1 and isinstance(node.targets[0], ast.Subscript) and U(node.targets[0].value) == 'B' \
+        if isinstance(node, ast.Assign) and len(node.targets) == 1 and isinstance(node.targets[0], ast.Subscript) and U(node.targets[0].value) == Bn \
                 and isinstance(node.value, (ast.ListComp, ast.SetComp)) and isinstance(node.value.elt, ast.Tuple) and len(node.value.elt.elts) == 2:
             r = U(node.targets[0].slice)
             rd = U(node.value.elt.elts[1])
@@ -604,7 +614,7 @@ def check_saturated_sets(ctx):
         if isinstance(node, ast.For) and isinstance(node.target, ast.Name):
             for c in ast.walk(node):
                 if isinstance(c, ast.Call) and isinstance(c.func, ast.Attribute) and c.func.attr in ('append', 'add') and isinstance(c.func.value, ast.Subscript) \
-                        and U(c.func.value.value) == 'B' and len(c.args) == 1 and isinstance(c.args[0], ast.Tuple) and len(c.args[0].elts) == 2 \
+                        and U(c.func.value.value) == Bn and len(c.args) == 1 and isinstance(c.args[0], ast.Tuple) and len(c.args[0].elts) == 2 \
                         and U(c.args[0].elts[1]) == node.target.id and U(c.func.value.slice) != node.target.id:
                     cands.append((node, U(c.func.value.slice), node.target.id, node.iter))
         for where, r, rd, it in cands:
